@@ -58,7 +58,7 @@ Definition kind_at (t : tree) (f : node -> bool) (p : path) : bool :=
 
 Definition dot : comp := [46].
 Definition dotdot : comp := [46; 46].
-(* walk.rs:279-285: the file name of the entry starts with '.'; the root has no file name *)
+(* walk.rs visit_entry: the file name of the entry starts with '.'; the root has no file name *)
 Definition name_hidden (p : path) : bool :=
   match last p [] with 46 :: _ => true | _ => false end.
 
@@ -190,11 +190,12 @@ Section Walk.
       end
     else ([], []).
 
-  (* visit_entry: hidden, visited (only with follow_links), ignore, then by entry type.
+  (* visit_entry: hidden (only below the input paths: level > 0), visited (only with follow_links),
+     ignore, then by entry type.
      Result: spawned tasks, new visited set, paths sent to the consumer. *)
   Definition visit_entry (vis : list path) (p : path) (nd : node) (lvl : N) (stk : list path) (dev : N)
     : list task * list path * list path :=
-    if negb (c_hidden c) && name_hidden p then ([], vis, [])
+    if negb (c_hidden c) && (0 <? lvl) && name_hidden p then ([], vis, [])
     else if c_follow c && mem p vis then ([], vis, [])
     else
       let vis' := if c_follow c then p :: vis else vis in
